@@ -30,8 +30,8 @@ ROLE_ENV = lang.LeafEnv(('role',))
 
 def check_table(chk, leaves, lenv=ROLE_ENV, enforcer=None):
     """Decision table of a real check object."""
-    if enforcer is None and lenv.rules(leaves):
-        enforcer = enforcer_for(lenv.rules(leaves))
+    if enforcer is None and (lenv.rules(leaves) or any(lenv.kind(i) in ('http', 'https') for i in leaves)):
+        enforcer = enforcer_for(lenv.rules(leaves))         # rule: leaves need their definitions, remote checks the options
     rows = []
     for asg in lang.all_assignments(leaves):
         target, creds = lenv.env(asg, leaves)
